@@ -8,6 +8,9 @@ class LibBase:
         self.globals = {"np": V.VOpaque("module:np"), "simpy": V.VOpaque("module:simpy"),
                         "math": V.VOpaque("module:math"), "random": V.VOpaque("module:random"), "bisect": V.VOpaque("module:bisect")}
 
+    def call_func(self, ex, fv, args, st, node):
+        return None
+
     # --- class/schema queries
     def is_method(self, cls, attr):
         return attr in self.contracts.get(cls, {})
